@@ -83,6 +83,10 @@ func (s *Server) Serve(listeners []net.Listener) error {
 		return ErrServerClosed
 	default:
 	}
+	if s.serving {
+		s.mu.Unlock()
+		return errors.New("server is already serving")
+	}
 
 	// set serving state and enable peers
 	s.serving = true
